@@ -22,7 +22,7 @@ def main():
     try:
         subprocess.run(['rsync', '-a', '--exclude', 'target', '--exclude', '.git', '/repo/', scratch + '/'], check=True)
         for fn in sorted(os.listdir(d)):
-            if not fn.endswith('.json'):
+            if not fn.endswith('.json') or fn == 'harmless.json':   # harmless.json belongs to tools/harmless.py
                 continue
             prop = fn[:-5]
             if want and prop not in want:
